@@ -214,7 +214,11 @@ def public_path(spec, rng, acc):
                 origin = [k_ for k_ in ("actisense", "ebyte", "usb", "yd", "ebyte_fast") if outs.get(k_) is not None]
                 base_m = outs[origin[acc.evaluations % len(origin)]]
                 p2, s2, d2 = (prio + 3) % 8, (src + 101) % 254, (dst + 57) % 254
-                way = ("deepcopy+assign", "dataclasses.replace", "json-edited", "constructor-from-vars", "copy+assign")[(acc.evaluations // 3) % 5]
+                way = ("deepcopy+assign", "dataclasses.replace", "json-edited", "constructor-from-vars", "copy+assign", "assign-then-through-json")[(acc.evaluations // 3) % 6]
+                if (acc.evaluations // 18) % 2 == 0:
+                    # header values that are zero (priority 0, source 0, destination 0): they are values like any other
+                    p2, s2, d2 = [(0, s2, 0), (0, 0, d2), (p2, 0, 0), (0, 0, 0)][(acc.evaluations // 36) % 4]
+                    acc.count("readdressed_copies_with_zero_header_values")
                 try:
                     if way == "deepcopy+assign":
                         m = _copy.deepcopy(base_m)
@@ -224,6 +228,10 @@ def public_path(spec, rng, acc):
                         m.destination, m.source, m.priority = d2, s2, p2
                     elif way == "dataclasses.replace":
                         m = _dc.replace(base_m, priority=p2, source=s2, destination=d2)
+                    elif way == "assign-then-through-json":
+                        m = _copy.deepcopy(base_m)
+                        m.priority, m.source, m.destination = p2, s2, d2
+                        m = NMEA2000Message.from_json(m.to_json())          # (stored, sent to another process, read back)
                     elif way == "constructor-from-vars":
                         m = NMEA2000Message(**{**vars(base_m), "priority": p2, "source": s2, "destination": d2})
                     else:
